@@ -523,6 +523,7 @@ def bounds (start : Nat) (stop : Option Nat) (len : Nat) : Except Err (Nat × Na
 
 inductive Kind where
   | list | vector | string
+  | octets     -- slip's byte vectors (`(coerce … 'octets)`): elements are integers 0..255
   deriving DecidableEq, Repr
 
 structure Seq where
@@ -536,9 +537,20 @@ def isChr : Obj → Bool
 
 def Seq.toList (s : Seq) : List Obj := s.elems
 
-/-- a string holds characters only -/
+def isOctet : Obj → Bool
+  | .int i => decide (0 ≤ i ∧ i < 256)
+  | _ => false
+
+/-- what a sequence of a kind can hold: anything in a list or a vector, characters in a string,
+    integers 0..255 in an octets vector -/
+def elemOk : Kind → Obj → Bool
+  | .string, o => isChr o
+  | .octets, o => isOctet o
+  | _, _ => true
+
+/-- a string holds characters only, an octets vector octets only -/
 def Seq.ofList (k : Kind) (l : List Obj) : Except Err Seq :=
-  if k = .string ∧ l.all isChr = false then .error .type else .ok ⟨k, l⟩
+  if l.all (elemOk k) = false then .error .type else .ok ⟨k, l⟩
 
 def optObj : Option Obj → Obj
   | none => .nil
@@ -654,5 +666,46 @@ def notevery (f : List Obj → Obj) (seqs : List (List Obj)) : Obj :=
 
 /-- `mapcar` -/
 def mapcar (f : List Obj → Obj) (lists : List (List Obj)) : List Obj := (tuples lists).map f
+
+/-! ## the calls a function with side effects observes (where the language fixes them)
+
+  every / some / notany / notevery: "the predicate is first applied to the elements with index 0 of
+  each of the sequences, and possibly then to the elements with index 1, and so on", stopping at
+  the first decisive value. map / mapcar: every argument tuple, in order. reduce: the combination
+  order is the (left- or right-associative) one the result reveals. -/
+
+/-- the calls made until (and including) the first one for which `stop` holds -/
+def callsUntil (stop : List Obj → Bool) : List (List Obj) → List (List Obj)
+  | [] => []
+  | t :: ts => if stop t then [t] else t :: callsUntil stop ts
+
+/-- every, notevery stop at the first false value; some, notany at the first true value -/
+def everyTrace (f : List Obj → Obj) (seqs : List (List Obj)) : List (List Obj) :=
+  callsUntil (fun t => !truthy (f t)) (tuples seqs)
+
+def someTrace (f : List Obj → Obj) (seqs : List (List Obj)) : List (List Obj) :=
+  callsUntil (fun t => truthy (f t)) (tuples seqs)
+
+/-- map, mapcar: every tuple, in order -/
+def mapTrace (seqs : List (List Obj)) : List (List Obj) := tuples seqs
+
+/-- the calls `(f acc x)` of a left fold, in order -/
+def foldlTrace (f : Obj → Obj → Obj) : Obj → List Obj → List (List Obj)
+  | _, [] => []
+  | acc, x :: xs => [acc, x] :: foldlTrace f (f acc x) xs
+
+/-- `reduce`: left to right `(f acc x)`; with `:from-end` right to left `(f x acc)` -/
+def reduceTrace (f : Obj → Obj → Obj) (init : Option Obj) (fromEnd : Bool) (l : List Obj) : List (List Obj) :=
+  match fromEnd, init with
+  | false, some z => foldlTrace f z l
+  | true, some z => (foldlTrace (fun acc y => f y acc) z l.reverse).map List.reverse
+  | false, none =>
+    match l with
+    | [] => [[]]
+    | x :: r => foldlTrace f x r
+  | true, none =>
+    match l.reverse with
+    | [] => [[]]
+    | x :: r => (foldlTrace (fun acc y => f y acc) x r).map List.reverse
 
 end SlipVerif.Seq
